@@ -72,6 +72,22 @@ def _apply(v: Variant, root: str) -> Optional[str]:
                     with open(p, "w") as fh:
                         fh.write(ast.unparse(t) + "\n")
         return None
+    if v.func in ("return-via-local", "negate-ifs"):
+        fn = return_via_local if v.func == "return-via-local" else negate_ifs
+        for dirpath, _, files in os.walk(os.path.join(root, "gpytorch")):
+            for f_ in files:
+                if f_.endswith(".py"):
+                    p = os.path.join(dirpath, f_)
+                    with open(p) as fh:
+                        s = fh.read()
+                    import warnings
+                    with warnings.catch_warnings():
+                        warnings.simplefilter("ignore")
+                        t = ast.parse(s)
+                    fn(t)
+                    with open(p, "w") as fh:
+                        fh.write(ast.unparse(ast.fix_missing_locations(t)) + "\n")
+        return None
     if v.func == "shift-lines":
         for dirpath, _, files in os.walk(os.path.join(root, "gpytorch")):
             for fn in files:
@@ -198,7 +214,49 @@ def rename_locals(tree: ast.AST, suffix: str = "_rn"):
                 R(names).visit(sub)
 
 
+def return_via_local(tree: ast.AST):
+    """Behaviour-preserving refactoring: `return <expr>` becomes `_rv = <expr>; return _rv` (generators and lambdas untouched)."""
+
+    class T(ast.NodeTransformer):
+        def visit_Lambda(self, n):
+            return n
+
+        def _body(self, stmts):
+            out = []
+            for st in stmts:
+                st = self.visit(st)
+                if isinstance(st, ast.Return) and st.value is not None and not isinstance(st.value, (ast.Name, ast.Constant)):
+                    out.append(ast.Assign(targets=[ast.Name(id="_rv", ctx=ast.Store())], value=st.value, lineno=st.lineno, col_offset=st.col_offset))
+                    out.append(ast.Return(value=ast.Name(id="_rv", ctx=ast.Load()), lineno=st.lineno, col_offset=st.col_offset))
+                else:
+                    out.append(st)
+            return out
+
+        def generic_visit(self, n):
+            for fld in ("body", "orelse", "finalbody"):
+                v = getattr(n, fld, None)
+                if isinstance(v, list) and v and isinstance(v[0], ast.stmt):
+                    setattr(n, fld, self._body(v))
+            for h in getattr(n, "handlers", []) or []:
+                h.body = self._body(h.body)
+            for c in getattr(n, "cases", []) or []:
+                c.body = self._body(c.body)
+            return n
+
+    T().visit(tree)
+
+
+def negate_ifs(tree: ast.AST):
+    """Behaviour-preserving refactoring: `if c: A else: B` (B non-empty, no elif chain) becomes `if not c: B else: A`."""
+    for n in ast.walk(tree):
+        if isinstance(n, ast.If) and n.orelse and not (len(n.orelse) == 1 and isinstance(n.orelse[0], ast.If)):
+            n.test = n.test.operand if isinstance(n.test, ast.UnaryOp) and isinstance(n.test.op, ast.Not) else ast.UnaryOp(op=ast.Not(), operand=n.test)
+            n.body, n.orelse = n.orelse, n.body
+
+
 GENERIC = [
+    Variant("benign: every `return <expr>` goes through a local variable", "", func="return-via-local", expect="silent"),
+    Variant("benign: every two-armed if has its condition negated and its arms exchanged", "", func="negate-ifs", expect="silent"),
     Variant("benign: every local variable of every function renamed (ast-level refactoring)", "", func="rename-locals", expect="silent"),
     Variant("benign: ast.unparse of every file (comments dropped, every line moved)", "", func="unparse-all", expect="silent"),
     Variant("benign: seven lines inserted at the top of every file", "", func="shift-lines", expect="silent"),
